@@ -201,6 +201,8 @@ def canon(t, smap):
     if k == "call" and t[1] in ("std::convert::From::from", "std::convert::Into::into") and len(t[2]) == 1 and len(t) > 3 and isinstance(t[3], dict) and \
             (t[3].get("ty") or "") in ("u8", "u16", "u32", "u64", "usize", "i8", "i16", "i32", "i64", "isize"):
         return "(%s as %s)" % (c(t[2][0]), t[3]["ty"])      # usize::from(x) is x as usize
+    if k == "call" and re.match(r"^core::num::<impl [ui]8>::from_(be|le|ne)_bytes$", str(t[1])) and len(t[2]) == 1:
+        return "%s[0]" % c(t[2][0])         # a one-byte integer is its byte
     if k == "call" and t[1] in VIEW_CALLS and len(t[2]) == 1:
         return c(t[2][0])           # a view of the same value: buf.as_mut_slice() is &mut buf, bytes.as_ref() is &bytes
     if k == "call" and t[1] == "std::convert::Into::into" and len(t[2]) == 1:
@@ -252,7 +254,8 @@ def rename(s, smap):
 
 def is_log_call(t):
     # log statements, and pure Option / Result / conversion combinators (their effect is in the conditions and the returned term)
-    return isinstance(t, tuple) and t[0] == "call" and (t[1] in VIEW_CALLS or str(t[1]).startswith(("log::", "std::result::Result::", "std::option::Option::", "std::convert::", "<enter>", "<index>", "<arith>")) or
+    return isinstance(t, tuple) and t[0] == "call" and (t[1] in VIEW_CALLS or t[1] in ("core::slice::<impl [T]>::iter", "core::slice::<impl [T]>::iter_mut", "std::iter::IntoIterator::into_iter") or
+                                                        str(t[1]).startswith(("core::num::", "std::ops::Range", "core::ops::Range", "std::cmp::", "log::", "std::result::Result::", "std::option::Option::", "std::convert::", "<enter>", "<index>", "<arith>")) or
                                                         (str(t[1]).startswith("macro::") and str(t[1]).split("::")[-1] in LOG_MACROS))
 
 
@@ -305,10 +308,73 @@ def result_match_as_try(p):
     return q
 
 
+F_CUR = [None]
+
+
+def tag_tests_merged(p):
+    """Tests of the dispatched tag byte (range patterns, `contains`, comparisons) are replaced by the set of bytes for which all of them hold:
+    `tag @ 0x01..=0x05` and `(0x01..=0x05).contains(&tag)` select the same bytes. Returns (conds with one merged entry, old->new index map)."""
+    from ..readerrules import _eval_tag_cond, _tag_value, pattern_matches
+    F = F_CUR[0]
+    idx = []
+    for i, c in enumerate(p.conds):
+        if c[0] in ("if", "guard") and F is not None and _eval_tag_cond(c[1], 0, F) not in ("n/a",):
+            idx.append(i)
+        elif c[0] == "match" and _tag_value(c[1], None):
+            idx.append(i)
+    if not idx:
+        return list(p.conds), {i: i for i in range(len(p.conds) + 1)}
+    sel = []
+    for v in range(256):
+        ok = True
+        for i in idx:
+            c = p.conds[i]
+            if c[0] == "match":
+                r = pattern_matches(c[4], v)
+                if r is not None and c[3] is False:
+                    r = not r
+                elif r is not None and len(c) > 8 and c[8]:
+                    er = [pattern_matches(q, v) for q in c[8]]
+                    r = None if any(x is None for x in er) else (r and not any(er))
+            else:
+                r = _eval_tag_cond(c[1], v, F)
+                r = (r == bool(c[2])) if isinstance(r, bool) else None
+            if r is None:
+                return list(p.conds), {i: i for i in range(len(p.conds) + 1)}      # not understood: left as written
+            if not r:
+                ok = False
+                break
+        if ok:
+            sel.append(v)
+    rng, out = [], []
+    for v in sel:
+        if rng and rng[-1][1] == v - 1:
+            rng[-1][1] = v
+        else:
+            rng.append([v, v])
+    merged = ("tagset", ",".join("%d-%d" % (a, b) for a, b in rng))
+    remap, n = {}, 0
+    for i, c in enumerate(p.conds):
+        remap[i] = n
+        if i in idx:
+            if i == idx[0]:
+                out.append(merged)
+                n += 1
+        else:
+            out.append(c)
+            n += 1
+    remap[len(p.conds)] = n
+    return out, remap
+
+
 def canon_path(p, smap, in_loop=False):
     p = result_match_as_try(p)
+    conds_in, remap = tag_tests_merged(p)
     conds = []
-    for cnd in p.conds:
+    for cnd in conds_in:
+        if cnd[0] == "tagset":
+            conds.append("tag in {%s}" % cnd[1])
+            continue
         if cnd[0] == "if":
             conds.append(("" if cnd[2] else "!") + canon(cnd[1], smap))
         elif cnd[0] == "match":
@@ -321,8 +387,10 @@ def canon_path(p, smap, in_loop=False):
         else:
             conds.append(str(cnd[0]))
     # the order of effects: each call with the number of conditions already decided when it runs
-    trace = ["%s@%s" % (canon(t, smap), t[4] if len(t) > 4 else "") for t in p.trace if isinstance(t, tuple) and t[0] == "call" and not is_log_call(t)]
+    trace = ["%s@%s" % (canon(t, smap), remap.get(t[4], t[4]) if len(t) > 4 else "") for t in p.trace if isinstance(t, tuple) and t[0] == "call" and not is_log_call(t)]
     kind = "fall" if p.kind == "return" else p.kind         # `return x` at the end and the tail expression `x` are the same exit
+    if in_loop and kind == "continue":
+        kind = "fall"       # `continue` and falling off the end of the loop body both start the next iteration
     # the value an iteration of a loop body falls off with is discarded: `f()?` as the arm's value and `f()?;` as a statement are the same step
     ret = "()" if (in_loop and kind in ("fall", "continue")) else canon(p.ret, smap)
     return "%s [%s] {%s} => %s" % (kind, " && ".join(conds), "; ".join(trace), ret)
@@ -389,6 +457,7 @@ def check(run, views, tier):
             run.note("no async twins in cfg %s" % cfg)
             continue
         any_async = True
+        F_CUR[0] = F
         pairs = []
         for path, body in F.hir.items():
             if "::tests::" in path or body["kind"] not in ("Fn", "AssocFn"):
@@ -404,6 +473,7 @@ def check(run, views, tier):
         from ..symx import known_functions
         private = {q: b for q, b in F.hir.items() if "::tests::" not in q and b["kind"] in ("Fn", "AssocFn") and b.get("vis") != "Public" and
                    any(m in q for m in T["sync_markers"] + T["async_markers"])}
+        all_fe = {q: b for q, b in F.hir.items() if "::tests::" not in q and b["kind"] in ("Fn", "AssocFn") and any(m in q for m in T["sync_markers"] + T["async_markers"])}
         async_sibs = {s for _, s in pairs}
         for path, body in F.hir.items():
             if "::tests::" in path or body["kind"] not in ("Fn", "AssocFn"):
@@ -428,7 +498,8 @@ def check(run, views, tier):
             d = first_diff(na, ns)
             if d:
                 # trees differ: are the path summaries the same (a one-sided, behaviour-preserving rewrite)?
-                eq, why = same_paths(ab, sb, smap, inline=private)
+                # judged on primitives: every function of the two front ends (helpers and public siblings alike) inlined, depth-bounded
+                eq, why = same_paths(ab, sb, smap, inline=all_fe)
                 if eq:
                     d = None
                     detail = "trees differ, path summaries equal (%s)" % why
